@@ -212,7 +212,7 @@ func oneRun(o *kit.Out, r *kit.Rand, forceSaturated int) {
 	// not one interval later (generous bound; only meaningful for intervals well above scheduling noise)
 	if len(times) > 0 && tickInterval >= 100*time.Millisecond {
 		delay := time.Duration(times[0] - setupDone.Load())
-		if delay > tickInterval/2 {
+		if delay > max(tickInterval/2, 120*time.Millisecond) { // well above what a starved process adds
 			o.Fail("first-evaluation-late", fmt.Sprintf("first rate evaluation %s after setup with a tick interval of %s", delay, tickInterval))
 		}
 	}
